@@ -275,6 +275,35 @@ async def run_one(flavor, c, cnt, v):
             info = origin.requests[0].tls_info or {}
             if info.get("sni") != want_sni:
                 v("origin-sni-wrong", f"TLS to the origin named {info.get('sni')!r}, expected {want_sni!r}", ctx)
+    # a second request on the same pool (and, in forward mode, on the same proxy connection) that overrides nothing: the
+    # proxy hop must see the configured proxy headers and credentials again, whatever the first request overrode
+    if expect_ok and out.kind == "ok" and kind in ("http", "https"):
+        cnt["oracle_followup"] += 1
+        CALL.set("r1")
+        out2 = await guarded(flavor, lambda: api.request("GET", url, headers=[(b"X-Token", b"r1")]))
+        ctx2 = dict(ctx, followup=repr(out2))
+        if out2.kind != "ok" or out2.value.status != 200:
+            v(f"followup-failed:{kind}:{exc_name(out2.exc) if out2.kind == 'exc' else out2.kind}", repr(out2), ctx2)
+        elif not tls:
+            if len(px.forwards) < 2:
+                v("followup-not-forwarded", f"{len(px.forwards)} forwarded requests", ctx2)
+            else:
+                req2 = px.forwards[1]
+                exp_proxy = ([(b"Proxy-Authorization", b"Basic " + B64)] if auth else []) + proxy_headers
+                dflt_host = uhost.encode() if c["port"] is None else hostport.encode()
+                exp2 = merge(exp_proxy, [(b"Host", dflt_host), (b"X-Token", b"r1")])
+                hosts2 = [x for x in exp2 if x[0].lower() == b"host"]
+                rest2 = [x for x in exp2 if x[0].lower() != b"host"]
+                if req2.headers != exp2 and req2.headers != hosts2 + rest2:
+                    missing = [k for k, _ in exp_proxy if k.lower() not in lower_names(req2.headers)]
+                    mech = "proxy-headers-missing" if missing else "order-or-value"
+                    v(f"followup-forward-headers-wrong:{mech}", f"second forwarded request carried {req2.headers!r}, expected "
+                      f"{hosts2 + rest2!r}", ctx2)
+        else:
+            for req in origin.requests:
+                blob = b"\r\n".join(k + b": " + x for k, x in req.headers) + bytes(req.body)
+                if PROXY in blob or B64 in blob:
+                    v("proxy-data-inside-tunnel:followup", "proxy marker in the second tunnelled request", ctx2)
     await guarded(flavor, api.close_pool)
     reply = c["reply"] if not isinstance(c["reply"], (list, tuple)) else ":".join(map(str, c["reply"]))
     return f"{kind}|{c['scheme']}|creds{int(c['creds'])}|coll{int(c['collide'])}|{reply}|legacy{int(c['legacy'])}|{flavor}"
@@ -284,7 +313,7 @@ def run_case(case):
     flavor = case["flavor"]
     viol = []
     cnt = {k: 0 for k in ["cases", "oracle_forward", "oracle_connect", "oracle_tunnel_inner", "oracle_socks",
-                          "oracle_refusal", "refusals_http", "refusals_socks"]}
+                          "oracle_refusal", "refusals_http", "refusals_socks", "oracle_followup"]}
     sigs = set()
     sample = {}
 
